@@ -195,8 +195,10 @@ class CVRPTWEnv(CVRPEnv):
                 gather_by_index(td["locs"], curr_node).reshape([batch_size, 2]),
                 gather_by_index(td["locs"], next_node).reshape([batch_size, 2]),
             ).reshape([batch_size, 1])
+            # arrival times are real-valued (truncating them to integers would hide missed deadlines,
+            # all of them if times are scaled to [0, 1])
             curr_time = torch.max(
-                (curr_time + dist).int(),
+                curr_time + dist,
                 gather_by_index(td["time_windows"], next_node)[..., 0].reshape(
                     [batch_size, 1]
                 ),
@@ -206,6 +208,7 @@ class CVRPTWEnv(CVRPEnv):
                 <= gather_by_index(td["time_windows"], next_node)[..., 1].reshape(
                     [batch_size, 1]
                 )
+                + 1e-5
             ), "vehicle cannot start service before deadline"
             curr_time = curr_time + gather_by_index(td["durations"], next_node).reshape(
                 [batch_size, 1]
